@@ -41,6 +41,17 @@ def run(ctx):
         cases.append([values.encode(v), o, ctx.rng.choice(['py', 'py', 'c']), ctx.rng.randrange(1 << 30)])
     desc = lambda c: dict(value=c[0], opts=c[1], dumper=c[2])
     res0 = corr.direct(ctx, 'c16', cases, describe=desc, label='stable')
+    # history independence: the same scalars dumped under other options earlier in the same interpreter must not change the text
+    TEMPLATES = ['caf\u00e9{}', 'se\u00f1or {}', '\u263a{}', 'plain{}', '{}: x', '- {}', ' lead{}', 'tab\t{}', '\U0001F600{}', 'multi\nline{}', '{}', 'trail{} ', '#{}', "it's{}", 'a\x85b{}', '\ue000{}']
+    hist = []
+    for t in TEMPLATES:
+        for _ in range(ctx.n(6, 40)):
+            o1 = c02.opts(ctx.rng); o2 = dict(o1)
+            k = ctx.rng.choice(['allow_unicode', 'allow_unicode', 'canonical', 'default_style', 'width', 'default_flow_style', 'indent', 'line_break'])
+            alt = {'allow_unicode': [None, True], 'canonical': [None, True], 'default_style': [None, '"', "'", '|', '>'], 'width': [None, 5, 20, 1000], 'default_flow_style': [None, True, False], 'indent': [None, 4, 7], 'line_break': [None, '\r\n', '\r']}[k]
+            o2[k] = ctx.rng.choice([x for x in alt if x != o1.get(k)] or alt)
+            hist.append([t, ctx.rng.choice(['py', 'py', 'c']), o1, o2])
+    corr.direct(ctx, 'c16h', hist, describe=lambda c: dict(template=c[0], dumper=c[1], earlier_opts=c[2], opts=c[3]), label='history')
     sub = [c for c in cases if c[1].get('sort_keys')][:ctx.n(1200, 12000)]
     digests = []
     for seed in (1, 77, 4242):
